@@ -465,6 +465,8 @@ func lexString(l *lexer) stateFn {
 		// recognised by there being no open bracket within the interpolation.
 		parens := l.parens
 		l.parens = 0
+		// The string may itself stand in an interpolation of another string.
+		mode := l.mode
 		for {
 			p := strings.Index(l.input[l.pos:], delimOpenInterpolate)
 			if p < 0 {
@@ -481,7 +483,7 @@ func lexString(l *lexer) stateFn {
 			if l.mode == modeClosed {
 				return nil
 			}
-			l.mode = modeNormal
+			l.mode = mode
 			l.emit(tokenInterpolateClose)
 		}
 		if l.pos < len(l.input) {
